@@ -635,6 +635,22 @@ def new_list():
     return []
 
 
+def unpack_star(value, before, after):
+    """(x_0, .., x_{before-1}, [starred part], y_0, .., y_{after-1}) of `x.., *rest, y.. = value`"""
+    if not isinstance(value, SSeq) or isinstance(value.length(), int):
+        vals = builtins.list(value)
+        if len(vals) < before + after:
+            raise ValueError(f"not enough values to unpack (expected at least {before + after}, got {len(vals)})")
+        return builtins.tuple(vals[:before]) + (vals[before:len(vals) - after],) + builtins.tuple(vals[len(vals) - after:] if after else [])
+    n = value.length()
+    if not cur().decide(lift(n) >= before + after):
+        raise ValueError(f"not enough values to unpack (expected at least {before + after})")
+    head = builtins.tuple(value.get(i) for i in range(before))
+    tail = builtins.tuple(value.get(n - after + i) for i in range(after))
+    rest = sym.seq_slice(value, before, n - after)
+    return head + (SSeq(rest.node, "list"),) + tail
+
+
 def iadd(a, b):
     """a += b"""
     if isinstance(a, builtins.list) and isinstance(b, (SSeq, SCursorSlice)) and not isinstance(SSeq.of(b).length() if isinstance(b, SSeq) else None, int):
